@@ -4,5 +4,6 @@ CONSTANTS
   B = 4
   LB = 2
   RunAlpha = {0, 3}
+  FullMask = TRUE
 INVARIANT Clean
 CHECK_DEADLOCK FALSE
